@@ -308,7 +308,209 @@ def bounded_c15(tier, seed):
     return guarded(p, _check_c15, tier, seed)
 
 
-BOUNDED = [bounded_c15]
+_FACTORY_SUT = "c15_factory_sut"
+_FACTORY_SRC = '''
+import enum
+
+
+class Colour(enum.Enum):
+    RED = 1
+    GREEN = 2
+
+
+class Account:
+    limit = 100
+
+    def __init__(self, owner: str, balance: int) -> None:
+        self.owner = owner
+        self.balance = balance
+
+    def deposit(self, amount: int) -> int:
+        self.balance += amount
+        return self.balance
+
+    def rename(self, owner: str) -> str:
+        self.owner = owner
+        return owner
+
+    def peers(self, others: list["Account"]) -> int:
+        return len(others)
+
+
+class Ledger:
+    def __init__(self, first: Account, limit: int) -> None:
+        self.accounts = [first]
+        self.limit = limit
+
+    def add(self, account: Account) -> int:
+        self.accounts.append(account)
+        return len(self.accounts)
+
+    def lookup(self, table: dict[str, Account], key: str):
+        return table.get(key)
+
+
+def scale(value: int, factor: float) -> float:
+    return value * factor
+
+
+def label(account: Account, tag: str, colour: Colour) -> str:
+    return f"{account.owner}:{tag}:{colour.name}"
+
+
+def total(values: list[int], start: int) -> int:
+    return sum(values, start)
+
+
+def pair(a, b):
+    return (a, b)
+
+
+def apply(fn, value: int):
+    return fn(value)
+
+
+def flags(items: set[str], pairs: tuple[int, str], data: bytes, flag: bool, ratio: complex) -> int:
+    return len(items)
+'''
+
+
+def _shard_factory(args):
+    """Random histories of the real variation operators (test factory, mutation operator, crossover, TestCase clean-ups)."""
+    idx, nshards, trials, seed, max_len = args
+    import importlib, os, shutil, sys, tempfile  # noqa: E401
+    import pynguin.configuration as config
+    import pynguin.ga.testcasechromosome as tcc
+    import pynguin.testcase.testcase as tcm
+    import pynguin.testcase.testfactory as tf
+    from pynguin.analyses.module import generate_test_cluster
+    from pynguin.ga.operators.crossover import SinglePointRelativeCrossOver, splice_test_case_chromosomes
+    from pynguin.utils import randomness
+    d = tempfile.mkdtemp(prefix="c15f_")
+    with open(os.path.join(d, _FACTORY_SUT + ".py"), "w", encoding="utf-8") as f:
+        f.write(_FACTORY_SRC)
+    sys.path.insert(0, d)
+    importlib.invalidate_caches()
+    saved = (config.configuration.module_name, config.configuration.search_algorithm.chromosome_length)
+    res, n = [], 0
+    try:
+        config.configuration.module_name = _FACTORY_SUT
+        config.configuration.search_algorithm.chromosome_length = max_len
+        cluster = generate_test_cluster(_FACTORY_SUT)
+        factory = tf.TestFactory(cluster)
+        crossover = SinglePointRelativeCrossOver()
+
+        def fresh(k):
+            ch = tcc.TestCaseChromosome(tcm.TestCase(), factory)
+            for _ in range(30):
+                if ch.size() >= k:
+                    break
+                factory.insert_random_statement(ch.test_case, ch.size())
+            return ch
+
+        def pos(ch):
+            return randomness.next_int(0, max(1, ch.size()))
+        ops = {
+            "mutate": lambda a, b: a.mutate(),
+            "insertion-mutation": lambda a, b: a._mutation_insert(),   # noqa: SLF001
+            "crossover": lambda a, b: crossover.cross_over(a, b),
+            "splice-at-end": lambda a, b: splice_test_case_chromosomes(a, b.clone(), a.size(), randomness.next_int(0, max(1, b.size()))),
+            "insert_random_statement": lambda a, b: factory.insert_random_statement(a.test_case, pos(a)),
+            "delete_statement_gracefully": lambda a, b: a.size() and factory.delete_statement_gracefully(a.test_case, pos(a)),
+            # (TestFactory.delete_statement, the raw removal of one statement, is a primitive with the precondition that the
+            #  bound variable is unused; the variation operators delete through delete_statement_gracefully)
+            "change_random_call": lambda a, b: a.size() and factory.change_random_call(a.test_case, pos(a)),
+            "change_statement_type": lambda a, b: a.size() and factory.change_statement_type(a.test_case, pos(a)),
+            "change_random_field_call": lambda a, b: a.size() and factory.change_random_field_call(a.test_case, pos(a)),
+            "mutate_value": lambda a, b: a.size() and factory.mutate_value(a.test_case, pos(a)),
+            "mutate_call": lambda a, b: a.size() and factory.mutate_call(a.test_case, pos(a)),
+            "chop": lambda a, b: a.size() and a.test_case.chop(pos(a)),
+            "remove_unused_variables": lambda a, b: a.test_case.remove_unused_variables(),
+            "remove_statement_with_forward_dependencies": lambda a, b: a.size() and a.test_case.remove_statement_with_forward_dependencies(pos(a)),
+            "clone-and-replace": lambda a, b: setattr(a, "test_case", a.test_case.clone()),
+        }
+        names = sorted(ops)
+        # the operations the length bound is stated for ("crossover and insertion"); the change mutation inside mutate() may
+        # regenerate arguments and is not named by the statement
+        limited = {"insertion-mutation", "crossover", "splice-at-end"}
+        for t in range(trials):
+            if t % nshards != idx:
+                continue
+            randomness.RNG.seed(seed * 100003 + t)
+            pop = {"a": fresh(3), "b": fresh(5), "c": fresh(2)}
+            pop["copy-of-a"] = pop["a"].clone()
+            history = []
+            bad = False
+            for step in range(14):
+                op = names[randomness.next_int(0, len(names))]
+                x, y = randomness.choice(sorted(pop)), randomness.choice(sorted(pop))
+                before = {k: v.size() for k, v in pop.items()}
+                history.append(f"{op}({x}, {y})")
+                n += 1
+                try:
+                    ops[op](pop[x], pop[y])
+                except Exception as e:  # noqa: BLE001
+                    res.append(("a variation operator applied to well-formed test cases does not fail", f"raises:{op}:{type(e).__name__}",
+                                {"history": list(history), "error": f"{type(e).__name__}: {e}"[:300], "test_case": pop[x].test_case.to_code()[:800]}))
+                    bad = True
+                    break
+                for k, ch in pop.items():
+                    lim = max_len if (op in limited and ch.size() > before[k]) else None
+                    for clause, kind, what in wf_problems(ch.test_case, lim):
+                        res.append((clause, f"{kind}:after-{op}", {"history": list(history), "test_case_name": k, "what": what,
+                                                                   "test_case": ch.test_case.to_code()[:1200]}))
+                        bad = True
+                if bad:
+                    break
+            if len(res) > 40:
+                break
+    finally:
+        config.configuration.module_name, config.configuration.search_algorithm.chromosome_length = saved
+        sys.modules.pop(_FACTORY_SUT, None)
+        if d in sys.path:
+            sys.path.remove(d)
+        shutil.rmtree(d, ignore_errors=True)
+    return n, res
+
+
+def _check_factory(part: Part, tier, seed):
+    import multiprocessing as mp
+    nsh = 16
+    trials = 4000 if tier == "thorough" else 800
+    with mp.get_context("fork").Pool(nsh) as pool:
+        out = pool.map(_shard_factory, [(i, nsh, trials, seed, 12) for i in range(nsh)])
+    seen = set()
+    for n, res in out:
+        part.inputs_run += n
+        part.nontrivial += n
+        for clause, cls, detail in res:
+            if cls in seen:
+                continue
+            seen.add(cls)
+            part.violation(clause, cls, detail, target="pynguin.testcase.testfactory:TestFactory")
+
+
+def bounded_factory(tier, seed):
+    p = Part("C15", "factory-histories", ["pynguin.testcase.testfactory:TestFactory.insert_random_statement",
+                                          "pynguin.testcase.testfactory:TestFactory.delete_statement_gracefully",
+                                          "pynguin.testcase.testfactory:TestFactory.change_random_call",
+                                          "pynguin.testcase.testfactory:TestFactory.change_statement_type",
+                                          "pynguin.testcase.testfactory:TestFactory.mutate_value", "pynguin.testcase.testfactory:TestFactory.mutate_call",
+                                          "pynguin.ga.testcasechromosome:TestCaseChromosome.mutate",
+                                          "pynguin.ga.operators.crossover:SinglePointRelativeCrossOver.cross_over",
+                                          f"{TC}:TestCase.chop", f"{TC}:TestCase.remove_unused_variables", f"{TC}:TestCase.clone"],
+             scope="800 (thorough 4000) seeded random histories of 14 operations out of 15 (mutation operator, relative and boundary "
+                   "crossover, the test factory's insert / delete / change-call / change-type / field / value / call mutations, chop, "
+                   "unused-variable removal, forward-dependency removal, clone) over 4 test cases (one a clone of another) built by the "
+                   "real test factory for a generated cluster (classes, methods, a class attribute, enum, list/dict/set/tuple/bytes/"
+                   "complex parameters, untyped and callable parameters), maximum length 12; after every operation every live test "
+                   "case is checked: valid Python, reads bound earlier, distinct names below the counter, registry equal to the "
+                   "statements, and (for mutation and crossover that grew it) length within the maximum",
+             bound="sampled histories (not exhaustive), one module; local search is not driven")
+    return guarded(p, _check_factory, tier, seed)
+
+
+BOUNDED = [bounded_c15, bounded_factory]
 META = {"level": "other", "explanation": "bounded contract check of the real TestCase operations and the crossover operator over "
                                          "an exhaustively enumerated small scope of well-formed test cases",
         "rule": "one case per (operation, test case(s), positions)"}
